@@ -268,6 +268,10 @@ pub enum Build {
     DocType(String),
     /// Event::Eof written in the middle of the sequence (writes nothing)
     Eof,
+    /// Writer::write_bom() (only generated as the very first call)
+    Bom,
+    /// Writer::write_indent() / write_indent_async()
+    Indent,
     /// Writer::create_element(name).with_attribute(..)* then one of the content calls
     Builder {
         name: String,
